@@ -454,9 +454,9 @@ type H264PPS struct {
 	ConstrainedIntraPredFlag              bool
 	RedundantPicCntPresentFlag            bool
 
-	HighTail                   bool // transform_8x8_mode_flag … present (more_rbsp_data())
-	Transform8x8ModeFlag       bool
-	SecondChromaQpIndexOffset  int32
+	HighTail                  bool // transform_8x8_mode_flag … present (more_rbsp_data())
+	Transform8x8ModeFlag      bool
+	SecondChromaQpIndexOffset int32
 }
 
 func (p *H264PPS) syntax(c coder) {
